@@ -154,6 +154,73 @@ class N:
     def m(self):
         LOG.append(("body", "outer"))
         return 1
+# ---- postconditions of an async function that return an awaitable which is not a coroutine
+class Aw:
+    def __init__(self, v): self.v = v
+    def __await__(self):
+        yield None
+        return self.v
+class AwIter:
+    # an awaitable whose __await__ returns a plain iterator
+    def __init__(self, v): self.v = v
+    def __await__(self):
+        return iter_then(self.v)
+class iter_then:
+    def __init__(self, v): self.v = v; self.done = False
+    def __iter__(self): return self
+    def __next__(self):
+        if not self.done:
+            self.done = True
+            return None
+        raise StopIteration(self.v)
+async def coro_value(v):
+    return v
+def aw_post(result):
+    LOG.append(("post", "aw"))
+    return Aw(T.get("aw", True))
+def awiter_post(result):
+    LOG.append(("post", "aw"))
+    return AwIter(T.get("aw", True))
+def coro_post(result):
+    LOG.append(("post", "aw"))
+    return coro_value(T.get("aw", True))
+@icontract.ensure(aw_post, error=E_outer)
+async def af_aw():
+    LOG.append(("body", "af"))
+    return 1
+@icontract.ensure(awiter_post, error=E_outer)
+async def af_awiter():
+    LOG.append(("body", "af"))
+    return 1
+@icontract.ensure(coro_post, error=E_outer)
+async def af_coro():
+    LOG.append(("body", "af"))
+    return 1
+# ---- a contract on top of a foreign decorator that changes the colour of the callable
+import functools
+def sync_facade(fn):
+    @functools.wraps(fn)
+    def w(*a, **k):
+        return RUN(fn(*a, **k))
+    return w
+def async_facade(fn):
+    @functools.wraps(fn)
+    async def w(*a, **k):
+        return fn(*a, **k)
+    return w
+def facade_post(result):
+    LOG.append(("post", "facade", result))
+    return T.get("facade", True)
+@icontract.ensure(facade_post, error=E_outer)
+@sync_facade
+async def sf():
+    LOG.append(("body", "sf"))
+    return 1
+@icontract.ensure(facade_post, error=E_outer)
+@async_facade
+def asf():
+    LOG.append(("body", "asf"))
+    return 1
 '''
 PAIRS = {
     "property_setter_reads_getter": lambda ns: setattr(ns["K"](), "p", 5),
@@ -192,7 +259,34 @@ def check_pairs(acc):
                             "{}: the postcondition of the outer callable calls the inner one (inner postcondition {}, outer {}): expected outcome {} and "
                             "evaluations {}, observed {} and {} (log {})".format(name, inner, outer, want, want_posts, out, got_posts, log),
                             spec={"pairs": name}, script=PAIR_SRC))
-        acc.sample({"pairs": sorted(PAIRS)}, cap=1)
+        # awaitable results of postconditions; contracts over colour-changing facades
+        singles = {
+            "async_post_returns_custom_awaitable": ("aw", lambda: ns["RUN"](ns["af_aw"]()), [("body", "af"), ("post", "aw")]),
+            "async_post_returns_iterator_awaitable": ("aw", lambda: ns["RUN"](ns["af_awiter"]()), [("body", "af"), ("post", "aw")]),
+            "async_post_returns_coroutine": ("aw", lambda: ns["RUN"](ns["af_coro"]()), [("body", "af"), ("post", "aw")]),
+            "ensure_over_sync_facade_of_async_def": ("facade", lambda: ns["sf"](), [("body", "sf"), ("post", "facade", 1)]),
+            "ensure_over_async_facade_of_def": ("facade", lambda: ns["RUN"](ns["asf"]()), [("body", "asf"), ("post", "facade", 1)]),
+        }
+        for name, (key, thunk, want_log) in sorted(singles.items()):
+            for truth in (True, False):
+                def go2():
+                    ns["T"].clear()
+                    ns["T"][key] = truth
+                    del ns["LOG"][:]
+                    try:
+                        return ("ret", thunk())
+                    except BaseException as e:
+                        return ("exc", type(e).__name__)
+                out = core.fresh_ctx_run(go2)
+                log = list(ns["LOG"])
+                want = ("ret", 1) if truth else ("exc", "E_outer")
+                acc.case(("single", name, truth), True, len(log), out[0])
+                if out != want or log != want_log:
+                    acc.violation(core.Violation(
+                        PROP, "postcondition_not_gating", {"family": "pairs", "pair": name, "outer": truth},
+                        "{}: the postcondition's (awaited) value is {}: expected outcome {} and log {}, observed {} and {}".format(
+                            name, truth, want, want_log, out, log), spec={"pairs": name}, script=PAIR_SRC))
+        acc.sample({"pairs": sorted(PAIRS) + sorted(singles)}, cap=1)
     finally:
         core.unload_source(ns)
 
@@ -220,6 +314,8 @@ def run(tier, t0):
              "every violating call is also made twice in one context (identical observations required); plus 6 pairs of same-named "
              "callables (accessors of one property, factory twins sync/async, a re-defined function, same-named methods of two classes) where the "
              "outer postcondition calls the inner callable x truth of (inner, outer) postcondition: the inner return is gated too; "
+             "postconditions of async functions returning a custom awaitable / an iterator-based awaitable / a coroutine; ensure on top of a foreign "
+             "decorator that turns an async def into a sync callable and vice versa (holds/falsy each); "
              "non-trivial = at least one postcondition in effect",
         assumptions=["StopIteration raised by bodies is outside the alphabet (CPython rewrites it for coroutines)"],
         bounds={"programs": len(sp), "max_own_posts": max((0, 1, 2) if tier == "quick" else (0, 1, 2, 3)), "max_levels": 3},
